@@ -1557,11 +1557,14 @@ func (a *Authenticator) resumeSession(ctx context.Context, entry *SessionEntry, 
 
 // negotiateSecurity performs security negotiation between client and server
 func (a *Authenticator) negotiateSecurity(negotiation *SecurityNegotiation) error {
-	// Find compatible authentication method - server preference order
+	// Find compatible authentication method - server preference order. Only a
+	// method this build can actually perform counts as mutually usable: a common
+	// but unimplemented (or unknown) name must not turn a PREFERRED policy into
+	// a doomed authentication attempt.
 	negotiation.NegotiatedAuth = AuthNone
 	for _, serverAuth := range negotiation.ServerConfig.AuthMethods {
 		for _, clientAuth := range negotiation.ClientConfig.AuthMethods {
-			if serverAuth == clientAuth {
+			if serverAuth == clientAuth && serverAuth != AuthNone && serverAuth.Implemented() {
 				negotiation.NegotiatedAuth = serverAuth
 				break
 			}
